@@ -102,6 +102,16 @@ Fixpoint map2l {A B C} (f : A -> B -> C) (la : list A) (lb : list B) : list C :=
   | _, _ => []
   end.
 
+(* like map2l, but total on the second list (so that it is the identity when f c is) *)
+Fixpoint map2r {A B} (f : A -> B -> B) (la : list A) (lb : list B) : list B :=
+  match lb with
+  | [] => []
+  | b :: rb => match la with
+               | a :: ra => f a b :: map2r f ra rb
+               | [] => b :: rb
+               end
+  end.
+
 Definition list_machine {C S I O V} (M : machine C S I O V)
   : machine (list C) (list S) I (list O) (list V) :=
   mkMachine
@@ -110,5 +120,5 @@ Definition list_machine {C S I O V} (M : machine C S I O V)
        let rs := map2l (fun c s => m_step M c s it rel i) cs ss in
        (map fst rs, map snd rs))
     (fun cs ss => map2l (m_save M) cs ss)
-    (fun cs ss => map2l (m_after_save M) cs ss)
+    (fun cs ss => map2r (m_after_save M) cs ss)
     (fun cs vs => map2l (m_load M) cs vs).
